@@ -233,6 +233,35 @@ def b_float(interp, args, kwargs, node):
     raise Unsupported(f'float() of {type(v).__name__}', node)
 
 
+def x_fraction(interp, args, kwargs, node):
+    """fractions.Fraction(x) for an int, or for repr(float): the exact rational of the number as written - in the
+    real-number model of floats (A-FLOAT, A-REPR) the number itself"""
+    if len(args) != 1:
+        raise Unsupported('Fraction(numerator, denominator)', node)
+    v = args[0]
+    if isinstance(v, (SInt, int)) and not isinstance(v, (SBool, bool)):
+        return v
+    if isinstance(v, (SBool, bool)):
+        return mk_int(z3.If(v.t, z3.IntVal(1), z3.IntVal(0))) if isinstance(v, SBool) else int(v)
+    if isinstance(v, SStr):
+        t = v.t
+        if z3.is_app(t) and t.decl().name() in ('float_repr', 'float_str'):
+            trust(interp, 'A-REPR: Fraction(repr(x)) is the exact value of the shortest rendering of x; x itself in the '
+                          'real-number model of floats')
+            return mk_float(t.arg(0))
+        if z3.is_app(t) and t.decl().name() == 'int_repr':
+            return mk_int(t.arg(0))
+        raise Unsupported('Fraction of a symbolic string that is not repr(number)', node)
+    if isinstance(v, (SFloat, float)):
+        trust(interp, 'A-FLOAT: Fraction(float) is the exact binary value; the float itself in the real-number model')
+        return v
+    if isinstance(v, str):
+        import fractions
+        f = fractions.Fraction(v)
+        return int(f) if f.denominator == 1 else float(f)
+    raise Unsupported(f'Fraction of {type(v).__name__}', node)
+
+
 def b_isfinite(interp, args, kwargs, node):
     v = args[0]
     if isinstance(v, (SFloat, SInt, SBool)):
@@ -1454,6 +1483,7 @@ def make_externals(world):
     reg('math.copysign', b_copysign)
     reg('math.isclose', b_isclose)
     reg('math.isfinite', b_isfinite)
+    reg('fractions.Fraction', x_fraction)
     reg('collections.abc.Iterable', None)
     ext['collections.abc.Iterable'] = Builtin('Iterable', None)
     ext['collections.abc'] = ExternalModule('collections.abc')
